@@ -21,7 +21,6 @@ Correspondence / oracle, per generated message:
     (raw - 2^nbits(owner)) / 10^scale(owner).
 """
 import json
-import multiprocessing
 import os
 
 from harness import core, tables_io
@@ -487,7 +486,7 @@ def check_view(sub, spec_links, nodes, nested):
     for a, o in spec_links:
         want.setdefault(o, []).append(a)
     for i, lab in enumerate(d):
-        if lab.startswith('A') and i + 1 < n and not (d[i + 1][0] in 'TFDR' and False):
+        if lab.startswith('A') and i + 1 < n:
             want.setdefault(i + 1, []).insert(0, i)
     meaning = {}       # index of a marker value -> index of its meaning element
     last8023 = last8024 = None
@@ -519,7 +518,7 @@ def check_view(sub, spec_links, nodes, nested):
         exp = list(want.get(j, []))
         lab = d[j]
         if lab[0] in 'FDA' and meaning.get(j) is not None:
-            exp = [meaning[j]] + exp if lab[0] == 'A' else [meaning[j]] + exp
+            exp = [meaning[j]] + exp
         if got != exp:
             return 'node %d (%s): attributes are items %s, expected %s' % (j, lab, got, exp)
     # rendered JSON
@@ -651,13 +650,24 @@ def check_diffstats(c, impl_bits, sub, elems, links):
     return None, n
 
 
-def evaluate(c, drv_results):
-    pass
+def as_mapping(resp):
+    """the model records the links as the LIST of assignments; the implementation's `bitmap_links` is a dict
+    (a second assignment to the same key wins): compare the final mapping"""
+    for sub in (resp.get('subsets') or []):
+        m = {}
+        for a, o in sub['l']:
+            m[a] = o
+        sub['l'] = sorted([a, o] for a, o in m.items())
+    return resp
+
+
+def marker_class33(c, subs):
+    return any(lab[0] in 'TFDR' and lab[1:3] == '33' for sub in (subs or []) for lab in sub['d'])
 
 
 def run_chunk(ctx, drv, treq, cases):
     """full pipeline on cases with values; returns number evaluated"""
-    enc = P.run_encode(drv, treq, cases)
+    enc = [(c, impl, as_mapping(model)) for c, impl, model in P.run_encode(drv, treq, cases)]
     items = []
     for c, impl, model in enc:
         why = None if ORACLE_ONLY else P.compare_encode(c, impl, model)
@@ -673,7 +683,7 @@ def run_chunk(ctx, drv, treq, cases):
     for c, b, m in items:
         impls.append(impl_decode_full(b))
         reqs.append({'op': 'dec-data', 'ids': c.ids, 'compressed': c.comp, 'n': c.n, 'bits': C.data_bits(b)})
-    mres = drv.batch(reqs)[1:]
+    mres = [as_mapping(r) for r in drv.batch(reqs)[1:]]
     # oracle: Spec.links on the implementation's items
     reqs = [treq]
     where = []
@@ -724,7 +734,8 @@ def run_chunk(ctx, drv, treq, cases):
         for s, sub in enumerate(im['subsets']):
             sp = spec[(k, 0 if c.comp else s)]
             if sp['l'] != sub['l']:
-                report(ctx, c, 'links: subset %d: implementation %s, Spec.links on its items %s (labels %s)' % (s, sub['l'], sp['l'], sub['d']), b, stage='links', extra={'assoc_over': assoc_over(c)})
+                report(ctx, c, 'links: subset %d: implementation %s, Spec.links on its items %s (labels %s)' % (s, sub['l'], sp['l'], sub['d']), b, stage='links',
+                       extra={'assoc_over': assoc_over(c), 'marker_class33': marker_class33(c, im['subsets'])})
                 bad = True
                 break
             if not sp['complete']:
@@ -838,7 +849,6 @@ def run(ctx):
         part = plans[off:off + chunk]
         # exhaustive plans need a base with enough plain items: retry with a 'plain' prefix
         cases = make_cases(drv, treq, rng, part)
-        got = {id(c) for c in cases}
         total += run_chunk(ctx, drv, treq, cases)
         ctx.count('generated', len(part))
         ctx.count('with-values', len(cases))
